@@ -309,6 +309,10 @@ class RowMetadata(Contract):
                 "heading_rows_only_at_group_starts": lambda k: Implies(Select(cols["pageby_header_rows"], k) > 0, self.chg(c, pb, k) if pb else z3.BoolVal(False)),
                 "page_unassigned": lambda k: Select(cols["page"], k) == 0,
             }
+            if pb:
+                # C05: a group whose page_by values are all the divider '-----' has no heading, so it must not cost a row
+                parts["C05.divider_only_group_costs_no_heading_row"] = lambda k: Implies(And(*[key_str(d, k, col) == lit("-----") for col in pb]),
+                                                                                           Select(cols["pageby_header_rows"], k) == 0)
             if len(pb) >= 2:
                 # C03: the renderer shows ONE heading row per page_by level from the first level that changed downwards (dividers
                 # excluded); the budget of a group-start row has to cover all of them
